@@ -218,13 +218,6 @@ def guarded(case):
 # shards
 
 
-def enum_cases(envs, lengths, mode):
-    for n in lengths:
-        for env in envs:
-            for s in srcgen.enum_short(env, n):
-                yield {"env": env, "src": s, "via": "enum", "mode": mode}
-
-
 def _enum_slice(envs, lengths, mode, index, nshards):
     # slice before joining: itertools does the skipping in C
     for n in lengths:
@@ -298,13 +291,16 @@ ATHERIS_RUNS = 12500
 
 def _atheris_stream(ctx, rec):
     """Stream 4 (thorough): run the coverage-guided target in a subprocess; crashers are re-judged here."""
-    try:
-        from vt.fuzz import c01_atheris
-    except ImportError:
+    import importlib.util
+
+    if importlib.util.find_spec("atheris") is None:  # optional dependency (/verif/.deps)
         rec.extra["atheris"] = "unavailable"
         return
+    from vt.fuzz import c01_atheris
+
     for case in c01_atheris.run_subprocess(ctx.derive("atheris") % (2**31), ATHERIS_RUNS, ctx.index, rec.extra):
-        rec.run(guarded, case)
+        if rec.run(guarded, case):
+            raise core.HarnessError("atheris reported a crash that check_case does not reproduce: %r" % (case,))
 
 
 def floors(total, tier):
